@@ -83,6 +83,8 @@ class C03(C20):
         return case
 
     def sample_view(self, case):
+        if case.get('kind') == 'soak':
+            return dict(case, text=self.SOAK_TEXT)
         if case.get('kind') == 'unify':
             v = U.C02.sample_view(U.PROP, case)
             v['ending'] = case['ending']
@@ -92,11 +94,15 @@ class C03(C20):
         return v
 
     def case_key(self, case):
+        if case.get('kind') == 'soak':
+            return 'soak%d' % case['n']
         if case.get('kind') == 'unify':
             return repr((case['stack'], case['t1'], case['t2'], case['ending']))
         return repr((case['text'], case['replaced'], case['queries'], case['ending']))
 
     def shrink_candidates(self, case):
+        if case.get('kind') == 'soak':
+            return
         if case.get('kind') == 'unify':
             for c in U.C02.shrink_candidates(U.PROP, case):
                 yield c
@@ -108,7 +114,58 @@ class C03(C20):
             yield dict(case, ending=dict(e, k=e['k'] - 1))
 
     # ------------------------------------------------------------------
+    SOAK_TEXT = ('d(1). d(2). d(3).\np(X) :- d(X), q(X).\nq(X) :- d(Y), X = Y.\nr(X) :- ( d(X), X = 2 -> true ; X = none ).\n'
+                 's(X) :- once(d(X)).\nt(X) :- \\+ \\+ d(X), d(X), !.\n')
+
+    def extra_checks(self, tier, seed):
+        """soak: ONE engine on which thousands of queries are abandoned in every way (closed after the first answer,
+        dropped, ended by an exception thrown into them, cut short by cut / once / if-then-else inside); afterwards the
+        queries give the answers they gave at the start and no variable is bound"""
+        case = {'kind': 'soak', 'n': 4000 if tier == 'quick' else 40000}
+        return [(case, self.decide(case))]
+
+    def decide_soak(self, case):
+        class Stop(Exception):
+            pass
+        try:
+            yp = impl.YP()
+            yp.load_script_from_string(impl.compile_text(self.SOAK_TEXT))
+            names = ['p', 'r', 's', 't', 'd']
+
+            def full(name):
+                v = yp.variable()
+                return [impl.to_python(v) for _ in yp.query(name, [v])]
+            start = {n: full(n) for n in names}
+            if start != {'p': [1, 2, 3], 'r': [2], 's': [1], 't': [1], 'd': [1, 2, 3]}:
+                return FAIL('soak:wrong-answers-at-the-start', {'text': self.SOAK_TEXT, 'answers': start})
+            for i in range(case['n']):
+                name = names[i % len(names)]
+                v = yp.variable()
+                g = yp.query(name, [v])
+                next(g)
+                k = i % 3
+                if k == 0:
+                    g.close()
+                elif k == 1:
+                    del g
+                else:
+                    try:
+                        g.throw(Stop())
+                    except Stop:
+                        pass
+            gc.collect()
+            end = {n: full(n) for n in names}
+            if end != start:
+                return FAIL('soak:answers-change-after-many-abandoned-queries', {'text': self.SOAK_TEXT, 'abandoned': case['n'], 'at_the_start': start, 'now': end})
+            if impl.bound_variables():
+                return FAIL('soak:variables-still-bound', {'text': self.SOAK_TEXT, 'bound': len(impl.bound_variables())})
+        except Exception as e:      # noqa
+            return FAIL('soak:exception:' + impl.exc_signature(e), {'text': self.SOAK_TEXT, 'error': '%s: %s' % (type(e).__name__, str(e)[:200])})
+        return OK(True, ['soak:%d-queries-abandoned-on-one-engine' % case['n']])
+
     def decide(self, case):
+        if case.get('kind') == 'soak':
+            return self.decide_soak(case)
         if case.get('kind') == 'unify':
             return self.decide_unify(case)
         clauses = tt(case['clauses'])
